@@ -1,8 +1,9 @@
 From Coq Require Import ZArith List Bool.
 Import ListNotations.
-From V Require Import Base.Tree Base.Bytes Base.Parser Pkg.Iface Pkg.RegCore Pkg.CoreProofs Pkg.RegB2 Pkg.All.
+From V Require Import Base.Tree Base.Bytes Base.Parser Pkg.Iface Pkg.RegCore Pkg.CoreProofs Pkg.RegB1 Pkg.RegB2 Pkg.All.
 
 Theorem kinds_all_streamable : kinds_streamable kinds_all.
 Proof.
-  unfold kinds_all, kinds_streamable. apply Forall_app. split; [exact kinds_core_streamable|exact kinds_b2_streamable].
+  unfold kinds_all, kinds_streamable. apply Forall_app. split; [exact kinds_core_streamable|].
+  apply Forall_app. split; [exact kinds_b1_streamable|exact kinds_b2_streamable].
 Qed.
